@@ -111,10 +111,17 @@ int main(int argc, char **argv)
             if(!dev) return 2;
             playerOf(dev)->m_synth->m_verifTap = &CFTap::cb;
             playerOf(dev)->m_synth->m_verifTapUd = tap;
-            long long r1 = opn2_switchEmulator(dev, (int)c.get("emu", 0));
-            long long r2 = opn2_setNumChips(dev, g_chips);
-            opn2_setChipType(dev, (int)c.get("fam", 0));
-            long long r3 = opn2_setRunAtPcmRate(dev, (int)c.get("pcm", 0));
+            // "ord" rotates the order of the four calls that rebuild the chips: each of them must leave them fully set up
+            long long ord = c.get("ord", 0);
+            long long r1 = 0, r2 = 0, r3 = 0;
+            for(int k = 0; k < 4; ++k)
+            {
+                int step = (int)((k + ord) % 4);
+                if(step == 0) r1 = opn2_switchEmulator(dev, (int)c.get("emu", 0));
+                else if(step == 1) r2 = opn2_setNumChips(dev, g_chips);
+                else if(step == 2) opn2_setChipType(dev, (int)c.get("fam", 0));
+                else r3 = opn2_setRunAtPcmRate(dev, (int)c.get("pcm", 0));
+            }
             if(installBanks(dev, c["banks"]) != 0) { fprintf(stderr, "INFRA: bank installation failed\n"); return 2; }
             opn2_setAutoArpeggio(dev, 0);
             g_haveIdle = false; g_idleMean = 0.0; g_idleLo = g_idleHi = 0;
